@@ -86,6 +86,12 @@ static void ascon128a_masked_aead_finalize
     ascon_trng_state_t *trng, uint64_t *preserve,
     const ascon_masked_key_128_t *k, unsigned char *tag)
 {
+#if ASCON_MASKED_DATA_SHARES == 1
+    /* The random number generator acquires its own permutation state:
+     * release the single-share state while randomness is drawn */
+    ascon_release(state_x1);
+#endif
+
     /* Refresh the randomness for the final permutation call */
 #if ASCON_MASKED_KEY_SHARES == 2
     preserve[0] = ascon_trng_generate_64(trng);
@@ -101,6 +107,7 @@ static void ascon128a_masked_aead_finalize
     /* Convert the data shares form back into the key shares form */
 #if ASCON_MASKED_DATA_SHARES == 1
     ascon_copy_key_from_x1(state, state_x1, trng);
+    ascon_acquire(state_x1); /* freed by the caller */
 #elif ASCON_MASKED_DATA_SHARES == 2
     ascon_copy_key_from_x2(state, trng);
 #elif ASCON_MASKED_DATA_SHARES == 3
